@@ -701,6 +701,8 @@ def index(ip, v, i):
         s = ip.seq_view(v)
         if s is None:
             raise Unsupported("index into cell " + k)
+        if c.get('byte_elems') and s.kind == ('seq', 'int'):
+            s = SV(s.e, 'bytes')         # same sequence, read as bytes: element accesses carry the 0..255 typing fact
         v = s
     if isinstance(v, (tuple, list)):
         return _meta_index(ip, v, i)
@@ -923,6 +925,7 @@ def set_item(ip, base, i, v):
         if k == 'obj':
             return ip.call_method(base, '__setitem__', [i, v], {})
         if k in ('bytearray', 'list'):
+            c.pop('byte_elems', None)
             fld = 'data' if k == 'bytearray' else 'seq'
             s = c[fld] if isinstance(c[fld], SV) else lift(c[fld])
             n = z3.Length(s.e)
